@@ -97,6 +97,8 @@ def swarm_cfg(rng, nclients=None, entry=None, long_latency=True):
                      "t0": rng.random() * 0.05} for _ in range(n)],
         "phases": [],
     }
+    cfg["server"]["access_log"] = rng.random() < 0.3
+    cfg["client_unwritable_p"] = rng.choice([0.0, 0.0, 0.0, 0.0, 0.1, 0.4])
     return cfg
 
 
@@ -284,6 +286,7 @@ def gen_traffic(rng, i, tier, *, nclients=None, retries=(0, 1, -1), n_msgs=None,
     big = big or (200000 if tier == "thorough" else 40000)
     rtt0 = 2 * (cfg["latency"] + cfg["jitter"]) + 2 * cfg["reactor_lag"] + 2 * max(cfg["server"]["interval"], 1 / 60)
     burst_t = None
+    cb_raise_run = rng.random() < 0.25       # in a quarter of the runs some application send callbacks raise
     # offered load stays within what the sender can put on the wire in ~2 s (one datagram per tick):
     # an overloaded sender is an application problem, not a fault the properties quantify over
     frag = limits(mtu)["frag"]
@@ -300,6 +303,8 @@ def gen_traffic(rng, i, tier, *, nclients=None, retries=(0, 1, -1), n_msgs=None,
         retry = rng.choice(retries)
         op = {"t": round(t, 4), "len": length, "kind": rng.choice([0, 0, 0, 1, 2, 3, 4]), "retry": retry,
               "cb": rng.random() < cb_p}
+        if op["cb"] and cb_raise_run and rng.random() < 0.4:
+            op["cb_raises"] = rng.choice(["always", "on_false", "on_true"])
         c = rng.randrange(n)
         op["c"] = c
         is_server = server_sends and rng.random() < 0.4
